@@ -329,6 +329,7 @@ def hyp_drive(strategy, check, n, seed_, ev, known_keys=(), shrink=True, max_key
 
     for round_ in range(max_keys + 1):
         state["last"] = None
+        state["first"] = None
 
         @seed(seed_ + round_)
         @settings(
@@ -353,6 +354,8 @@ def hyp_drive(strategy, check, n, seed_, ev, known_keys=(), shrink=True, max_key
             if f.key in collected:
                 return
             state["last"] = f
+            if state["first"] is None:
+                state["first"] = f
             raise _Fail(f.key)
 
         try:
@@ -365,6 +368,19 @@ def hyp_drive(strategy, check, n, seed_, ev, known_keys=(), shrink=True, max_key
         except _Fail:
             f = state["last"]
             f.check = check_name
+            collected[f.key] = f
+            if round_ == max_keys:
+                break
+        except Exception as e:
+            # Hypothesis reports a failure that does not repeat when the same case is run again in
+            # this process as Flaky.  With a deterministic harness that means the code under test
+            # keeps state between cases (exactly what C03/C13 look for): report the first failing
+            # case, unshrunk.  Anything else is a harness error and propagates.
+            if state["first"] is None or "lak" not in type(e).__name__:
+                raise
+            f = state["first"]
+            f.check = check_name
+            f.detail += "  [not repeatable within the same process: the outcome depends on state left by earlier cases]"
             collected[f.key] = f
             if round_ == max_keys:
                 break
@@ -434,3 +450,59 @@ def run_io(fa, text):
 
 def now():
     return time.time()
+
+
+def machine_drive(make_machine, n, steps, seed_, ev, known_keys=(), check_name=None, max_keys=4, shrink=True):
+    """Stateful counterpart of hyp_drive.  make_machine(report) returns a RuleBasedStateMachine
+    class whose rules call report(finding) when a step violates the oracle; report raises unless
+    the finding is known/collected.  The finding's case must be the history so far (replayable
+    by the plain check function, without Hypothesis)."""
+    from hypothesis import HealthCheck, Phase, reporting, seed, settings
+    from hypothesis.stateful import run_state_machine_as_test
+
+    phases = [Phase.explicit, Phase.generate, Phase.target] + ([Phase.shrink] if shrink else [])
+    collected = {}
+    for round_ in range(max_keys + 1):
+        state = {"last": None, "first": None}
+
+        def report(f, state=state):
+            if f is None:
+                return
+            if f.key in known_keys:
+                ev.excluded_known[f.key] += 1
+                return
+            if f.key in collected:
+                return
+            state["last"] = f
+            if state["first"] is None:
+                state["first"] = f
+            raise _Fail(f.key)
+
+        M = make_machine(report)
+        st_ = settings(
+            max_examples=n,
+            stateful_step_count=steps,
+            database=None,
+            deadline=None,
+            derandomize=False,
+            report_multiple_bugs=False,
+            phases=phases,
+            suppress_health_check=list(HealthCheck),
+            print_blob=False,
+        )
+        try:
+            with reporting.with_reporter(lambda *_a, **_k: None):
+                run_state_machine_as_test(seed(seed_ + round_)(M), settings=st_)
+            break
+        except _Fail:
+            f = state["last"]
+        except Exception as e:
+            if state["first"] is None or "lak" not in type(e).__name__:
+                raise
+            f = state["first"]
+            f.detail += "  [not repeatable within the same process: the outcome depends on state left by earlier cases]"
+        f.check = check_name
+        collected[f.key] = f
+        if round_ == max_keys:
+            break
+    return list(collected.values())
